@@ -13,11 +13,11 @@ open DR (Drv MmuReq MigCmd)
 private theorem c3_update_ok (a : Alloc) (pg : Page) (h : (a.find pg.pid pg.vaddr).isSome = true) :
     ∃ a', a.update pg = some a' ∧ a'.lg = a.lg ∧ a'.free = a.free ∧
       (∀ pid v, a'.find pid v = if pid = pg.pid ∧ v = pg.vaddr then some pg else a.find pid v) ∧
-      (∀ q ∈ a'.table, q = pg ∨ (q ∈ a.table ∧ ¬ (q.pid = pg.pid ∧ q.vaddr = pg.vaddr))) := by
+      (∀ q ∈ a'.table, q = pg ∨ (q ∈ a.table ∧ ¬ (q.pid = pg.pid ∧ q.vaddr = pg.vaddr))) ∧ a'.range = a.range := by
   have hu : a.update pg = some { a with table := a.table.map fun p => if p.pid == pg.pid && p.vaddr == pg.vaddr then pg else p } := by
     unfold Alloc.update; rw [if_pos h]
   have hs := update_spec _ _ _ hu
-  refine ⟨_, hu, rfl, rfl, hs.2.2.2.2, ?_⟩
+  refine ⟨_, hu, rfl, rfl, hs.2.2.2.2, ?_, rfl⟩
   intro q hq
   simp only [List.mem_map] at hq
   obtain ⟨p, hp, rfl⟩ := hq
@@ -33,14 +33,14 @@ theorem c3_prepare_ok (a : Alloc) (pid v g : Nat) (o : Page) (f0 : Nat) (fr : Li
     ∃ a', prepare a pid v g = .ok (⟨pid, v, f0, g + 1, true, true⟩, o.paddr, a') ∧ a'.lg = a.lg ∧
       a'.free = a.free.set (g + 1) fr ∧
       (∀ pid' v', a'.find pid' v' = if pid' = pid ∧ v' = v then some ⟨pid, v, f0, g + 1, true, true⟩ else a.find pid' v') ∧
-      (∀ q ∈ a'.table, q ∈ a.table ∨ q = ⟨pid, v, f0, g + 1, true, true⟩) := by
+      (∀ q ∈ a'.table, q ∈ a.table ∨ q = ⟨pid, v, f0, g + 1, true, true⟩) ∧ a'.range = a.range := by
   have hpop : a.pop (g + 1) = .ok (f0, { a with free := setNth a.free (g + 1) fr }) := by
     unfold Alloc.pop; rw [hfree]
-  obtain ⟨a3, hu1, l1, f1, g1, t1⟩ := c3_update_ok
+  obtain ⟨a3, hu1, l1, f1, g1, t1, r1⟩ := c3_update_ok
     { a with free := setNth a.free (g + 1) fr, mirror := (v, ⟨pid, v, f0, g + 1, true, false⟩) :: a.mirror.filter (fun e => e.1 != v) }
     ⟨pid, v, f0, g + 1, true, false⟩ (by show (a.find pid v).isSome = true; rw [hf]; rfl)
-  obtain ⟨a4, hu2, l2, f2, g2, t2⟩ := c3_update_ok a3 ⟨pid, v, f0, g + 1, true, true⟩ (by rw [g1]; simp)
-  refine ⟨a4, ?_, ?_, ?_, ?_, ?_⟩
+  obtain ⟨a4, hu2, l2, f2, g2, t2, r2⟩ := c3_update_ok a3 ⟨pid, v, f0, g + 1, true, true⟩ (by rw [g1]; simp)
+  refine ⟨a4, ?_, ?_, ?_, ?_, ?_, r2.trans r1⟩
   · unfold prepare
     simp only []
     rw [← hal, hf]
@@ -110,6 +110,35 @@ theorem c3_frames_step (a a' : Alloc) (w : C19.Sys) (g f0 : Nat) (fr : List Nat)
       rw [hpa]
       exact (hF _ hd).1 f0 (by rw [hgd]; exact List.mem_cons_self ..)
 
+theorem c3_deviceOf_congr {a a' : Alloc} (h : a'.range = a.range) (p : Nat) : a'.deviceOf p = a.deviceOf p := by
+  unfold Alloc.deviceOf; rw [h]
+
+/-- one `prepare` keeps the frames inside the address ranges of their devices -/
+theorem c3_ranges_step (a a' : Alloc) (g f0 : Nat) (fr : List Nat) (pg' : Page)
+    (hR : RangeOK a) (hfree : a.free[g + 1]? = some (f0 :: fr)) (hrg : a'.range = a.range)
+    (hfr : a'.free = a.free.set (g + 1) fr) (ht : ∀ q ∈ a'.table, q ∈ a.table ∨ q = pg')
+    (hdev : pg'.dev = g + 1) (hpa : pg'.paddr = f0) : RangeOK a' := by
+  have hlen := c3_lt_of_getElem? _ _ _ hfree
+  have hgd := c3_getD_of_getElem? _ _ _ hfree
+  obtain ⟨r1, r2, r3⟩ := hR
+  have hf0 : a.deviceOf f0 = some (g + 1) := r2 (g + 1) hlen f0 (by rw [hgd]; exact List.mem_cons_self ..)
+  refine ⟨by rw [hrg, hfr, List.length_set]; exact r1, ?_, ?_⟩
+  · intro d hd f hf
+    rw [hfr, List.length_set] at hd
+    rw [hfr, c3_getD_set _ _ _ _ hlen] at hf
+    rw [c3_deviceOf_congr hrg]
+    by_cases hdg : d = g + 1
+    · rw [if_pos hdg] at hf
+      subst hdg
+      exact r2 _ hd f (by rw [hgd]; exact List.mem_cons_of_mem _ hf)
+    · rw [if_neg hdg] at hf
+      exact r2 d hd f hf
+  · intro q hq
+    rw [c3_deviceOf_congr hrg]
+    rcases ht q hq with hq | hq
+    · exact r3 q hq
+    · subst hq; rw [hdev, hpa]; exact hf0
+
 /-- what the page list must satisfy with respect to the allocator -/
 structure c3_LOK (a : Alloc) (pid host : Nat) (l : List (Nat × Nat)) : Prop where
   req : ∀ x ∈ l, x.1 < 2 ∧ x.1 + 1 ≠ host ∧ x.2 = (x.2 >>> a.lg) <<< a.lg ∧
@@ -127,6 +156,9 @@ structure c3_New (a a' : Alloc) (w : C19.Sys) (pid size host n0 : Nat) (l : List
   frames : FramesIn a' w
   lg : a'.lg = a.lg
   other : ∀ pid' v', ¬ (pid' = pid ∧ v' ∈ l.map (·.2)) → a'.find pid' v' = a.find pid' v'
+  range : a'.range = a.range
+  ranges : RangeOK a'
+  dev : ∀ m ∈ new, a.deviceOf m.rd = some host
 
 private theorem c3_inc (n k : Nat) (h : n + (k + 1) < CP.w64) : CP.inc n = n + 1 := by
   unfold CP.inc
@@ -134,7 +166,7 @@ private theorem c3_inc (n k : Nat) (h : n + (k + 1) < CP.w64) : CP.inc n = n + 1
 
 theorem c3_mkMigs (w : C19.Sys) (pid size host : Nat) (hh : host = 1 ∨ host = 2) :
     ∀ (l : List (Nat × Nat)) (d : Drv), d.fault = none → c3_LOK d.alloc pid host l → FramesIn d.alloc w →
-      d.mig + l.length < CP.w64 →
+      RangeOK d.alloc → d.mig + l.length < CP.w64 →
       ∃ a' new, d.mkMigs pid size (host - 1) l =
           { d with alloc := a', toCP := d.toCP ++ new, mig := d.mig + l.length, nMig := d.nMig + l.length,
                    migLog := d.migLog ++ new } ∧
@@ -142,13 +174,13 @@ theorem c3_mkMigs (w : C19.Sys) (pid size host : Nat) (hh : host = 1 ∨ host = 
   intro l
   induction l with
   | nil =>
-    intro d hf hl hF hm
+    intro d hf hl hF hR hm
     refine ⟨d.alloc, [], ?_, ?_⟩
     · simp [Drv.mkMigs]
-    · exact ⟨rfl, rfl, by simp, hF, rfl, fun _ _ _ => rfl⟩
+    · exact ⟨rfl, rfl, by simp, hF, rfl, fun _ _ _ => rfl, rfl, hR, by simp⟩
   | cons x rest ih =>
     obtain ⟨g, v⟩ := x
-    intro d hf hl hF hm
+    intro d hf hl hF hR hm
     obtain ⟨hg, hgh, hal, o, hfind, hdev⟩ := hl.req (g, v) (List.mem_cons_self ..)
     simp only at hg hgh hal hfind
     have hfl := hl.free g hg
@@ -164,8 +196,9 @@ theorem c3_mkMigs (w : C19.Sys) (pid size host : Nat) (hh : host = 1 ∨ host = 
         | cons f0 fr => exact ⟨f0, fr, rfl⟩
     have hlen := c3_lt_of_getElem? _ _ _ hfree
     have hgd := c3_getD_of_getElem? _ _ _ hfree
-    obtain ⟨a1, hprep, hlg1, hfr1, hfind1, htab1⟩ := c3_prepare_ok d.alloc pid v g o f0 fr hal hfind hfree
+    obtain ⟨a1, hprep, hlg1, hfr1, hfind1, htab1, hrg1⟩ := c3_prepare_ok d.alloc pid v g o f0 fr hal hfind hfree
     have hF1 : FramesIn a1 w := c3_frames_step d.alloc a1 w g f0 fr _ hF hg hfree hlg1 hfr1 htab1 rfl rfl
+    have hR1 : RangeOK a1 := c3_ranges_step d.alloc a1 g f0 fr _ hR hfree hrg1 hfr1 htab1 rfl rfl
     have hnd : v ∉ rest.map (·.2) ∧ (rest.map (·.2)).Nodup := by
       have := hl.nd
       simpa [List.nodup_cons] using this
@@ -202,14 +235,20 @@ theorem c3_mkMigs (w : C19.Sys) (pid size host : Nat) (hh : host = 1 ∨ host = 
     obtain ⟨a', new', heq, hN⟩ := ih
       { d with alloc := a1, toCP := d.toCP ++ [⟨d.nMig, g, v, o.paddr, f0, size, host - 1⟩],
                mig := d.mig + 1, nMig := d.nMig + 1,
-               migLog := d.migLog ++ [⟨d.nMig, g, v, o.paddr, f0, size, host - 1⟩] } hf hl1 hF1
+               migLog := d.migLog ++ [⟨d.nMig, g, v, o.paddr, f0, size, host - 1⟩] } hf hl1 hF1 hR1
       (by simp only [List.length_cons] at hm; show d.mig + 1 + rest.length < _; omega)
     refine ⟨a', ⟨d.nMig, g, v, o.paddr, f0, size, host - 1⟩ :: new', ?_, ?_⟩
     · rw [hstep, heq]
       simp only [List.append_assoc, List.singleton_append, List.length_cons]
       congr 1 <;> omega
     · have ho : o ∈ d.alloc.table := List.mem_of_find?_eq_some hfind
-      refine ⟨?_, ?_, ?_, hN.frames, hN.lg.trans hlg1, ?_⟩
+      refine ⟨?_, ?_, ?_, hN.frames, hN.lg.trans hlg1, ?_, hN.range.trans hrg1, hN.ranges, ?_⟩
+      rotate_left 4
+      · intro m hm'
+        rcases List.mem_cons.mp hm' with rfl | hm'
+        · show d.alloc.deviceOf o.paddr = some host
+          rw [← hdev]; exact hR.2.2 o ho
+        · rw [← c3_deviceOf_congr hrg1]; exact hN.dev m hm'
       · simp only [List.map_cons, hN.key]
       · simp only [List.map_cons, hN.ids, List.length_cons, List.range'_succ]
       · intro m hm'
@@ -325,7 +364,7 @@ theorem c3_case1 {s : Sys} (h : Inv s) (rest : List Ans) (r : MmuReq) (σ : Spli
     Inv { s with drv := { s.drv with shoot := s.drv.shoot - 1, gpuIn := rest } } := by
   have hop : ({ σ with bk := bk', dn := b0 :: σ.dn } : Split).open_ = σ.open_ - 1 := by
     simp only [Split.open_, hbk, List.length_cons]; omega
-  refine ⟨h.cfg, h.ng, h.caps, h.nf, h.frames, h.lg, h.logIds, ?_, ?_⟩
+  refine ⟨h.cfg, h.ng, h.caps, h.nf, h.frames, h.lg, h.logIds, ?_, ?_, ⟨h.rel.ranges, h.rel.queued, h.rel.flying⟩⟩
   · intro r' hr'
     obtain ⟨a, b, c⟩ := h.pending r' hr'
     exact ⟨⟨a.pid, a.host, a.accNe, a.accNd, a.accLt, a.accIn, a.size, a.pagesNe, a.pagesNd, a.pagesLt, a.req⟩,
@@ -448,7 +487,21 @@ theorem c3_case2 {s : Sys} (h : Inv s) (r : MmuReq) (σ : Split) (loc : Nat → 
     have := hb.perm.mem_iff (a := g)
     simp only [Split.all, hwait, hsent, hatg, List.nil_append, targets] at this
     exact this
-  refine ⟨h.cfg, h.ng, h.caps, h.nf, hN.frames, ?_, ?_, ?_, ?_⟩
+  refine ⟨h.cfg, h.ng, h.caps, h.nf, hN.frames, ?_, ?_, ?_, ?_, ?_⟩
+  rotate_left 4
+  · refine ⟨hN.ranges, ?_, ?_⟩
+    · intro m hm'
+      have hm2 : m ∈ s.drv.toCP ++ new := hm'
+      rw [htc, List.nil_append] at hm2
+      obtain ⟨e1, e2, e3, _, _⟩ := hN.each m hm2
+      refine ⟨r.host, hr.host, ?_, ?_⟩
+      · show a'.deviceOf m.rd = some r.host
+        rw [c3_deviceOf_congr hN.range]; exact hN.dev m hm2
+      · show m.rd + (1 <<< a'.lg) ≤ _
+        rw [hN.lg]; exact e3
+    · intro ho
+      have : s.drv.one = true := ho
+      rw [hone] at this; cases this
   · show (1 <<< a'.lg) % unit = 0 ∧ 0 < (1 <<< a'.lg)
     rw [hN.lg]; exact h.lg
   · show (s.drv.migLog ++ new).map (·.id) = List.range (s.drv.nMig + (migOrder s.drv.ngpu r.map).length)
@@ -519,7 +572,7 @@ theorem inv_ret_shoot {s : Sys} (h : Inv s) (rest : List Ans) (hin : s.drv.gpuIn
     have hLOK : c3_LOK s.drv.alloc r.pid r.host (migOrder s.drv.ngpu r.map) :=
       ⟨fun x hx => ⟨(hr.req x hx).1, (hr.req x hx).2, (hpg.found x hx).1, (hpg.found x hx).2⟩, hr.pagesNd, hpg.free⟩
     obtain ⟨a', new, heq, hN⟩ := c3_mkMigs s.w.sys r.pid r.pageSize r.host hr.host (migOrder s.drv.ngpu r.map)
-      { s.drv with shoot := 0, gpuIn := [] } h.nf hLOK h.frames
+      { s.drv with shoot := 0, gpuIn := [] } h.nf hLOK h.frames h.rel.ranges
       (by show s.drv.mig + _ < _; rw [hmig]; have := hr.pagesLt; omega)
     rw [heq]
     exact c3_case2 h r σ loc hwait hsent hatg hh hc hr hct htc hone hb hw hm a' new hN
